@@ -1,7 +1,7 @@
 (* C19 -- property theorems.  Statements + `exact` only; proofs live in Proofs/C19.v.
    The definitions are those of Model/C19.v, which the correspondence of harness/props/c19.py
    evaluates on every generated document next to load_mei / load_kern (check_doc, check_kern_pitch). *)
-From PV Require Import Lib.Base Model.C19 Proofs.C19 Proofs.C19_export Proofs.C19_spine.
+From PV Require Import Lib.Base Model.C19 Model.C19_mei Model.C19_disp Model.C19_kern Proofs.C19 Proofs.C19_export Proofs.C19_spine Proofs.C19_mei Proofs.C19_disp Proofs.C19_kern.
 From Coq Require Import QArith Qround Ascii.
 #[local] Open Scope Z_scope.
 
@@ -187,3 +187,166 @@ Theorem step_width_triple_merge_refuted :
   exists w line, Z.of_nat (List.length line) = w /\ count_tok is_split line = 0 /\ step_width w line <> humdrum_width w line.
 Proof. exact step_width_triple_merge_refuted_lemma. Qed.
 Print Assumptions step_width_triple_merge_refuted.
+
+(* ---------------------------------------------------------------- the MEI loader's traversal (Model/C19_mei.v) *)
+
+(* REFINEMENT.  The loader's traversal in divisions -- section items in document order, the time signatures of every
+   part as state, a measure rest as long as the measure of the part's LAST time signature, every element placed where
+   the previous one of its layer ends, the measure of a part ending at the max over its layers, the next measure
+   starting at the max over the parts -- computes, for every document, divs x what the notation denotes: every measure
+   starts at the encoded barline (measure_starts), every element of every layer of every part has the denoted onset
+   and duration (denote_layer; the meter in force in a measure = the last one declared before it in the document,
+   resolve), whatever the nesting, the number of meter changes, measure rests, spaces and grace notes. *)
+Theorem mei_load_refines : forall divs c0 u0 init items out,
+  0 < divs -> wf_meter divs c0 u0 ->
+  Forall (fun i => fst (fst i) = c0 /\ snd (fst i) = u0) init ->
+  Forall (wf_item divs) items ->
+  mei_load divs init items = Some out ->
+  Forall2 (repr divs) (map fst (o_meas out)) (measure_starts 0 (resolve c0 u0 items))
+  /\ (forall s l, Forall2 (row_rel divs) (part_layer_rows s l (o_meas out))
+                   (filter (fun r => visible (snd r)) (denote_layer s l 0 (resolve c0 u0 items))))
+  /\ repr divs (o_end out) (fold_left measure_end (resolve c0 u0 items) 0%Q).
+Proof. exact mei_load_refines_lemma. Qed.
+Print Assumptions mei_load_refines.
+
+(* the loader's `assert duration == int(duration)` never fires when every written value is a whole number of
+   divisions and every measure lists one <staff> per part ... *)
+Theorem mei_load_total : forall divs init items, Forall (item_total divs (List.length init)) items ->
+  exists out, mei_load divs init items = Some out.
+Proof. exact mei_load_total_lemma. Qed.
+Print Assumptions mei_load_total.
+
+(* ... which the inferred divisions (lcm rule of _find_ppq) guarantee for every element with @dur of the document and
+   for the measure of every declared meter (the hypotheses wf_meter / exact_mel of the two theorems above) *)
+Theorem mei_inferred_divisions_exact : forall units evs m,
+  In (ml_ev m) evs -> 0 < e_val (ml_ev m) -> 0 < e_num (ml_ev m) -> 0 < e_base (ml_ev m) ->
+  exact_mel (find_ppq units evs) m.
+Proof. exact find_ppq_exact_mel. Qed.
+Print Assumptions mei_inferred_divisions_exact.
+
+Theorem mei_inferred_divisions_meter : forall units evs c u, In u units -> 0 < u -> wf_meter (find_ppq units evs) c u.
+Proof. exact find_ppq_wf_meter. Qed.
+Print Assumptions mei_inferred_divisions_meter.
+
+(* the state matters: a measure rest that keeps the length computed under an earlier time signature of the part
+   (the class of seeded change d) does not represent the measure of the meter in force *)
+Theorem mrest_cached_refuted :
+  exists divs ts c u, last_meter (ts ++ [(8, c, u)]) = (c, u) /\ wf_meter divs c u /\
+    ~ repr divs (mrest_ticks divs ts) (4 * inject_Z c / inject_Z u)%Q.
+Proof. exact mrest_cached_refuted_lemma. Qed.
+Print Assumptions mrest_cached_refuted.
+
+(* ---------------------------------------------------------------- dispatch by extension (Model/C19_disp.v) *)
+
+(* load_score picks the reader from the LAST extension of the file name, lower-cased, whatever the rest of the path
+   holds -- several dots, the extension of another reader before the last dot, dots in directory names -- provided the
+   name itself (last path component of the stem) has a character other than '.' *)
+Theorem dispatch_last_extension : forall (stem e : string), plain_name e = true -> scan_seen false stem = true ->
+  load_score_reader (stem ++ String "."%char e) = reader_of_ext (lower (String "."%char e)).
+Proof. exact dispatch_last_extension_lemma. Qed.
+Print Assumptions dispatch_last_extension.
+
+Theorem dispatch_mei_kern : forall stem : string, scan_seen false stem = true ->
+  load_score_reader (stem ++ ".mei") = Some RMei /\ load_score_reader (stem ++ ".krn") = Some RKern /\
+  load_score_reader (stem ++ ".kern") = Some RKern /\ load_score_reader (stem ++ ".MEI") = Some RMei /\
+  load_score_reader (stem ++ ".Krn") = Some RKern /\ load_score_reader (stem ++ ".txt") = None /\
+  load_score_reader (stem ++ ".meix") = None.
+Proof. exact dispatch_mei_kern_lemma. Qed.
+Print Assumptions dispatch_mei_kern.
+
+(* a name that consists of an "extension" only (a hidden file ".mei") has none and is rejected, in any directory *)
+Theorem dispatch_hidden_name_rejected : forall (dir e : string), plain_name e = true ->
+  load_score_reader (dir ++ String "/"%char (String "."%char e)) = None.
+Proof. exact hidden_name_rejected_lemma. Qed.
+Print Assumptions dispatch_hidden_name_rejected.
+
+(* ---------------------------------------------------------------- kern tokens as text (Model/C19_kern.v part 1) *)
+
+(* load_kern's regular-expression searches decode EVERY note token of the shape
+     decorations  digits  dots  letter x (k+1)  accidental  decorations
+   (decorations: any characters that are neither pitch nor duration characters: ties [ ] _, beams L J, slurs, fermata,
+   stems, the grace marker q ...) to the digits' reciprocal value, the number of dots, the letter's step, the octave
+   4 + k (lower case) / 3 - k (upper case), the accidental's alteration, grace iff a 'q' occurs, tied to the previous
+   note iff ']' or '_' occurs *)
+Theorem kern_token_sound : forall (pre digits acc post : string) (nd k : nat) (c : ascii) (st : Z) (lower : bool),
+  str_forall neutral pre = true -> str_forall neutral post = true ->
+  digits <> ""%string -> str_forall is_digit digits = true ->
+  letter_step c = Some (st, lower) -> good_acc acc ->
+  parse_note_token (pre ++ (digits ++ repeat_char "."%char nd) ++ (repeat_char c (S k) ++ acc) ++ post) =
+  KT false (has_char "q"%char pre || has_char "q"%char post) (digits_value digits) nd
+     (Some (st, if lower then 4 + Z.of_nat k else 3 - Z.of_nat k)) (Some (acc_alter acc))
+     ((has_char "]"%char pre || has_char "]"%char post) || (has_char "_"%char pre || has_char "_"%char post)).
+Proof. exact kern_token_sound_lemma. Qed.
+Print Assumptions kern_token_sound.
+
+Theorem kern_rest_token : forall (pre digits post : string) (nd : nat),
+  str_forall neutral pre = true -> str_forall neutral post = true -> digits <> ""%string -> str_forall is_digit digits = true ->
+  parse_note_token (pre ++ (digits ++ repeat_char "."%char nd) ++ "r" ++ post) =
+  KT true (has_char "q"%char pre || has_char "q"%char post) (digits_value digits) nd None (Some None)
+     ((has_char "]"%char pre || has_char "]"%char post) || (has_char "_"%char pre || has_char "_"%char post)).
+Proof. exact kern_rest_token_lemma. Qed.
+Print Assumptions kern_rest_token.
+
+(* WRITER -> LOADER.  Whatever note save_kern writes -- any step, accidental, octave (the letter repeated as often as
+   the octave demands, unbounded), note value, number of dots, tuplet ratio with an integral reciprocal value, tie marks --
+   load_kern's token parser reads the token back to the same step, octave, accidental, value, dots and tie ... *)
+Theorem kern_write_parse : forall st alter oct v dots a n tprev tnext tok,
+  0 <= st <= 6 -> alter_ok alter -> 0 < v -> 0 <= a -> 0 <= n ->
+  kern_write_token st alter oct v dots a n tprev tnext = Some tok ->
+  parse_note_token tok = KT false false (Some (written_recip v a n)) dots (Some (st, oct)) (Some alter) tprev.
+Proof. exact kern_write_parse_lemma. Qed.
+Print Assumptions kern_write_parse.
+
+(* ... whose duration is what the note's written value denotes *)
+Theorem kern_written_duration : forall v dots a n, 0 < v -> 0 < a -> 0 < n -> (v * a) mod n = 0 ->
+  (kern_quarters (inject_Z (written_recip v a n)) dots == den_dur v dots a n)%Q.
+Proof. exact kern_written_duration_lemma. Qed.
+Print Assumptions kern_written_duration.
+
+(* the written value load_kern gives a reciprocal value r (note value b, ratio a : n; what the writers export) denotes
+   the duration of r, for every r -- and the rule used before commit cd703a5 did not *)
+Theorem kern_symbolic_denotes : forall r b a n, 0 < r -> kern_symbolic r = (b, a, n) ->
+  0 < b /\ ((a = 0 /\ n = 0 /\ b = r) \/ (0 < a /\ 0 < n /\ b * a = r * n)).
+Proof. exact kern_symbolic_denotes_lemma. Qed.
+Print Assumptions kern_symbolic_denotes.
+
+Theorem kern_symbolic_old_rule_refuted : exists r b a n, old_kern_symbolic r = (b, a, n) /\ b * a <> r * n.
+Proof. exact kern_symbolic_old_rule_refuted_lemma. Qed.
+Print Assumptions kern_symbolic_old_rule_refuted.
+
+(* ---------------------------------------------------------------- kern timeline placement (Model/C19_kern.v part 3) *)
+
+(* element_parsing with the shared table line -> position: whenever the table and the measure starts a spine inherits
+   agree with the spine's own durations, every note is placed by the order within its own spine *)
+Theorem kern_spine_run_aligned : forall divs same sub mstarts cells pos nbar tbl,
+  aligned divs same sub mstarts cells pos nbar tbl ->
+  fst (fst (spine_run divs same sub mstarts cells pos nbar tbl)) = spine_own divs cells pos.
+Proof. exact spine_run_aligned_lemma. Qed.
+Print Assumptions kern_spine_run_aligned.
+
+(* the spine that creates the part (one token per document line), at exact divisions: divs x the denoted positions *)
+Theorem kern_first_spine_placement : forall divs cells, NoDup (map fst cells) -> Forall (exact_cell divs) cells ->
+  Forall2 (krow_rel divs) (fst (fst (spine_run divs false false [] cells 0 O []))) (spine_den cells 0%Q).
+Proof. exact kern_first_spine_lemma. Qed.
+Print Assumptions kern_first_spine_placement.
+
+(* every later spine or sub-spine of the part whose inherited table agrees with it *)
+Theorem kern_later_spine_placement : forall divs sub mstarts tbl cells,
+  aligned divs true sub mstarts cells 0 O tbl -> Forall (exact_cell divs) cells ->
+  Forall2 (krow_rel divs) (fst (fst (spine_run divs true sub mstarts cells 0 O tbl))) (spine_den cells 0%Q).
+Proof. exact kern_later_spine_lemma. Qed.
+Print Assumptions kern_later_spine_placement.
+
+(* and a table that contradicts the spine (filled at other divisions, or from a misaligned line) moves its notes *)
+Theorem kern_misaligned_moves :
+  exists divs tbl cells, fst (fst (spine_run divs true true [0] cells 0 O tbl)) <> spine_own divs cells 0.
+Proof. exact kern_misaligned_moves_lemma. Qed.
+Print Assumptions kern_misaligned_moves.
+
+(* the lookup on EVERY line used before commit 89ae5ce: the position recorded for an interpretation line while the
+   first spine's note is sounding is that note's end, not the time of the line *)
+Theorem kern_tandem_lookup_refuted :
+  exists tbl line pos, tbl_get line tbl <> None /\ old_lookup_pos tbl line pos <> pos /\
+    tbl = snd (spine_run 6 false false [] (firstn 6 ex_sp1) 0 O []) /\ line = 6 /\ pos = 12.
+Proof. exact kern_tandem_lookup_refuted_lemma. Qed.
+Print Assumptions kern_tandem_lookup_refuted.
